@@ -557,6 +557,34 @@ pub fn structural_mutants(rec: &Rec, r: &mut impl RngCore) -> Vec<(&'static str,
     out
 }
 
+/// Every bit of the first header byte of every top-level item (and of the outer list) flipped: string <->
+/// list kind flips, short <-> long form, length off by a power of two. Not re-signed (the signature does
+/// not cover its own framing, and the library re-encodes before verifying).
+pub fn header_flips(base: &[u8]) -> Vec<(&'static str, Vec<u8>)> {
+    let mut out = Vec::new();
+    let mut offsets = vec![0usize];
+    if let Ok(h) = rlp::header(base) {
+        if h.list {
+            let mut pos = h.off;
+            while pos < base.len() {
+                offsets.push(pos);
+                match rlp::header(&base[pos..]) {
+                    Ok(ih) => pos += ih.total(),
+                    Err(_) => break,
+                }
+            }
+        }
+    }
+    for off in offsets {
+        for bit in 0..8 {
+            let mut v = base.to_vec();
+            v[off] ^= 1 << bit;
+            out.push(("header-bit-flip", v));
+        }
+    }
+    out
+}
+
 /// Size sweep: records whose total encoded size is exactly 290..=310 (valid signature).
 pub fn size_sweep(rec: &Rec) -> Vec<(&'static str, Vec<u8>)> {
     let mut out = Vec::new();
